@@ -656,8 +656,10 @@ class SQLBuilder(object):
     def RANDOM(builder):
         return 'RAND()'
     def RAWSQL(builder, sql):
-        if isinstance(sql, str): return sql
-        return [ x if isinstance(x, str) else builder(x) for x in sql ]
+        if builder.paramstyle in ('format', 'pyformat'): text = lambda s: s.replace('%', '%%')
+        else: text = lambda s: s
+        if isinstance(sql, str): return text(sql)
+        return [ text(x) if isinstance(x, str) else builder(x) for x in sql ]
     def build_json_path(builder, path):
         empty_slice = slice(None, None, None)
         has_params = False
